@@ -8,11 +8,11 @@ From PM Require Import Model.Prelude Model.Domain Model.BindMaps Model.DomString
 Lemma Neqb_iff a b : N.eqb a b = true <-> a = b.
 Proof. apply N.eqb_eq. Qed.
 
-Theorem string_lawful : Lawful string_dom (fun _ => True) s_goodb.
+Theorem string_lawful : Lawful string_dom (fun _ _ => True) s_goodb.
 Proof.
   constructor; auto.
   - exact sbind_monotone.
-  - intros ks m m' G _ R. split; auto.
+  - intros h ks m m' G _ R. split; auto.
     unfold s_goodb in G. apply andb_true_iff in G as [Hnd H0].
     apply (nodupb_NoDup N.eqb Neqb_iff) in Hnd.
     destruct ks as [|k ks'].
@@ -25,23 +25,65 @@ Proof.
 Qed.
 
 
-Theorem matrix_lawful : Lawful matrix_dom mm_wf m_goodb.
+(** matrix invariant: the box contains the start key, and the start value is an
+    existing cell of the host (it was offered by list_bind_options) *)
+Definition m_inv (h : mhost) (m : mpm) : Prop :=
+  mm_wf m /\ match m with MBound s _ _ => cell_at h s <> None | MUnbound => True end.
+
+Lemma all_cells_exist (h : mhost) : forall r0 v, In v (all_cells_from h r0) ->
+  exists row, nth_error h (N.to_nat (fst v - r0)) = Some row /\ (r0 <= fst v)%N
+              /\ (N.to_nat (snd v) < length row)%nat.
+Proof.
+  induction h as [|row rows IH]; intros r0 v Hin; cbn in Hin; [destruct Hin|].
+  apply in_app_or in Hin as [Hin|Hin].
+  - apply in_map_iff in Hin as [c [<- Hc]]. cbn. exists row.
+    rewrite N.sub_diag. cbn. split; auto. split; [lia|].
+    unfold nseq in Hc. apply in_map_iff in Hc as [n [<- Hn]]. apply in_seq in Hn.
+    rewrite Nat2N.id. lia.
+  - destruct (IH _ _ Hin) as [row' [Hn [Hle Hc]]]. exists row'. split; [|split; [lia|exact Hc]].
+    replace (N.to_nat (fst v - r0)) with (S (N.to_nat (fst v - (r0 + 1)))) by lia. exact Hn.
+Qed.
+
+Theorem matrix_lawful : Lawful matrix_dom m_inv m_goodb.
 Proof.
   constructor.
-  - exact I.
-  - intros m k v m' W B. eapply mm_wf_bind; eauto.
+  - intros h. split; exact I.
+  - intros h m k v vs m' [W S] O Hin B. split; [eapply mm_wf_bind; eauto|].
+    cbn in O, B. unfold m_opts in O. unfold mmbind in B.
+    destruct (mkey_eqb k (0, 0)%Z).
+    + destruct m; [|discriminate]. inversion B; subst. inversion O; subst.
+      destruct (all_cells_exist h 0%N v Hin) as [row [Hn [_ Hc]]].
+      unfold cell_at. rewrite N.sub_0_r in Hn. rewrite Hn.
+      apply nth_error_Some. exact Hc.
+    + destruct m as [|s a b]; [discriminate|]. inversion B; subst. exact S.
   - exact mmbind_monotone.
-  - intros ks m m' G W R.
+  - intros h ks m m' G [W S] R.
     unfold m_goodb in G. apply andb_true_iff in G as [Hnd H0].
     apply (nodupb_NoDup mkey_eqb mkey_eqb_spec) in Hnd.
     change (mretain matrix_dom ks m) with (m_retain ks m) in R.
     destruct ks as [|k ks'].
-    + unfold m_retain in R. cbn in R. inversion R; subst. split; [exact I|intros k []].
+    + unfold m_retain in R. cbn in R. inversion R; subst. split; [split; exact I|intros k []].
     + apply (memb_in mkey_eqb mkey_eqb_spec) in H0.
       assert (Hp : existsb (mmget_panics m) (k :: ks') = false).
       { unfold m_retain in R. destruct (existsb (mmget_panics m) (k :: ks')); [discriminate|reflexivity]. }
       destruct (m_retain_ok (k :: ks') m Hnd H0 W Hp) as [m'' [E [W' [Hk _]]]].
-      rewrite E in R. inversion R; subst. split; auto.
+      rewrite E in R. inversion R; subst. split; [|exact Hk]. split; [exact W'|].
+      (* the start value is unchanged: read it back through key (0,0) *)
+      destruct m' as [|s' a' b']; [exact I|].
+      specialize (Hk (0, 0)%Z H0).
+      destruct m as [|s a b].
+      * cbn in Hk. cbn in W'. apply in_box_iff in W'. rewrite W' in Hk.
+        unfold add_signed in Hk. rewrite !Z.add_0_r in Hk.
+        destruct (Z.ltb_spec (Z.of_N (fst s')) 0); [lia|].
+        destruct (Z.ltb_spec (Z.of_N (snd s')) 0); [lia|]. discriminate.
+      * cbn in Hk. cbn in W, W'. apply in_box_iff in W, W'. rewrite W, W' in Hk.
+        unfold add_signed in Hk. rewrite !Z.add_0_r in Hk.
+        destruct (Z.ltb_spec (Z.of_N (fst s')) 0); [lia|].
+        destruct (Z.ltb_spec (Z.of_N (snd s')) 0); [lia|].
+        destruct (Z.ltb_spec (Z.of_N (fst s)) 0); [lia|].
+        destruct (Z.ltb_spec (Z.of_N (snd s)) 0); [lia|].
+        rewrite !N2Z.id in Hk. inversion Hk.
+        destruct s as [s1 s2], s' as [s1' s2']. cbn in *. subst. exact S.
 Qed.
 
 (** strings and matrices: every constraint is its own single atom *)
